@@ -200,6 +200,17 @@ PROPS["C11"] = dict(
     expect_entries=C11_ENTRIES + EXT_SINGLE + KX_ENTRIES + HS_ENTRIES + ["parse_tls_record_with_header"] + MSG_ENTRIES,
     thorough_mult=10,
 )
+SELF_DELIM = ["parse_tls_plaintext", "parse_tls_encrypted", "parse_tls_raw_record", "tls_parser", "parse_tls_message_handshake"] + \
+             EXT_SINGLE + EXT_TAGGED + \
+             ["parse_dh_params", "parse_ec_parameters", "parse_ecdh_params", "parse_digitally_signed", "parse_digitally_signed_old",
+              "ECPoint::parse", "ExplicitPrimeContent::parse", "parse_content_and_signature_dh", "parse_content_and_signature_ecdh",
+              "parse_ct_signed_certificate_timestamp", "parse_ct_signed_certificate_timestamp_list",
+              "parse_dtls_plaintext_record", "parse_dtls_message_handshake", "parse_dtls_record_header", "parse_tls_record_header"]
+PROPS["C06"] = dict(
+    families=[("record", 150), ("handshake", 150), ("multi", 60), ("ext", 250), ("kx", 120), ("ct", 100), ("dtls", 150)],
+    corpus_entries=SELF_DELIM, mutate_entries=SELF_DELIM, mutate_budget=12, mutate_sources=120,
+    small_scope=[], expect_entries=[], thorough_mult=15,
+)
 CT_ENTRIES = ["parse_ct_signed_certificate_timestamp", "parse_ct_signed_certificate_timestamp_list"]
 PROPS["C14"] = dict(
     families=[("ct", 300)], corpus_entries=CT_ENTRIES, mutate_entries=CT_ENTRIES, mutate_budget=60, mutate_sources=300,
@@ -406,6 +417,85 @@ def _handshake_framing(payload, impl_out, listed=True, exact=True):
         return "consumed %d bytes but the %d returned messages frame %d" % (len(payload) - rem, k, pos)
     return None
 
+def derive_cases(pid, cases, tier, rng):
+    """C06: for every case of a self-delimiting parser, the same input followed by (a) random bytes, (b) a copy of
+    itself (bytes that look like a valid structure), (c) a single zero byte.  The expectation names the base case."""
+    from vlib import Case, split_line
+    if pid != "C06": return []
+    out = []
+    for c in cases:
+        e, a, hx = split_line(c.line)
+        if e not in SELF_DELIM or hx == "-" or len(hx) > 6000: continue
+        b = bytes.fromhex(hx)
+        sufs = [bytes(rng.randrange(256) for _ in range(rng.randrange(1, 9))), b[:64], b"\x00"]
+        if tier == "quick": sufs = [sufs[rng.randrange(3)], sufs[(len(hx) + sum(b[:4])) % 3]]
+        for x in sufs:
+            if not x: continue
+            out.append(Case(" ".join([e] + a + [(b + x).hex()]), "append:%d:%s" % (len(x), c.line), "append"))
+    return out
+
+_RES = re.compile(r"^\((ok) @(\S+)\+(\d+) (.*)\)$|^\((err|fail) (\w+) ")
+def _parse_res(o, n):
+    """('ok', rem_off, rem_len, value) | ('err', kind) | ('inc',) | None"""
+    if o is None: return None
+    if o.startswith("(inc"): return ("inc",)
+    m = _RES.match(o)
+    if not m: return None
+    if m.group(1):
+        ln = int(m.group(3)); off = (n - ln) if m.group(2) == "_" else int(m.group(2))
+        return ("ok", off, ln, m.group(4))
+    return ("err", m.group(6))
+
+def _provenance(b, o):
+    """every slice printed in an Ok value is a region of the input, inside the consumed part, with the input's bytes"""
+    r = _parse_res(o, len(b))
+    if not r or r[0] != "ok": return None
+    _, roff, rlen, val = r
+    if roff + rlen != len(b): return "remainder @%d+%d is not a suffix of the %d-byte input" % (roff, rlen, len(b))
+    if "#!:" in val: return "a returned slice does not point into the caller's buffer (copied or foreign)"
+    for m in re.finditer(r"#(\d+):([0-9a-f]*)", val):
+        off, hx = int(m.group(1)), m.group(2)
+        if off + len(hx) // 2 > roff:
+            return "a returned slice (@%d+%d) reaches beyond the consumed %d bytes" % (off, len(hx) // 2, roff)
+        if b[off:off + len(hx) // 2].hex() != hx:
+            return "a returned slice (@%d) does not hold the input's bytes at that position" % off
+    return None
+
+def _declared_len(e, a, b):
+    """total length the structure declares for itself (None when it has no outer length field)"""
+    def be(x): return int.from_bytes(x, "big")
+    if e in ("parse_tls_plaintext", "parse_tls_encrypted", "parse_tls_raw_record", "tls_parser"):
+        return 5 + be(b[3:5]) if len(b) >= 5 else None
+    if e == "parse_tls_message_handshake": return 4 + be(b[1:4]) if len(b) >= 4 else None
+    if e in EXT_SINGLE or e in EXT_TAGGED: return 4 + be(b[2:4]) if len(b) >= 4 else None
+    if e in ("parse_ct_signed_certificate_timestamp", "parse_ct_signed_certificate_timestamp_list"):
+        return 2 + be(b[0:2]) if len(b) >= 2 else None
+    if e == "parse_dtls_plaintext_record": return 13 + be(b[11:13]) if len(b) >= 13 else None
+    if e == "parse_dtls_message_handshake": return 12 + be(b[9:12]) if len(b) >= 12 else None
+    if e == "parse_tls_record_header": return 5
+    if e == "parse_dtls_record_header": return 13
+    return None
+
+def _append_oracle(cases, outs):
+    import vlib
+    fails = []
+    by_line = {c.line: o for c, o in zip(cases, outs)}
+    for c, o in zip(cases, outs):
+        if not c.expect.startswith("append:"): continue
+        _, k, base = c.expect.split(":", 2); k = int(k)
+        bo = by_line.get(base)
+        hx = vlib.split_line(c.line)[2]; n = len(hx) // 2
+        rb, ra = _parse_res(bo, n - k), _parse_res(o, n)
+        if not rb or rb[0] == "inc": continue
+        if ra is None: fails.append((c, o, "appended input: unreadable result (base: %s)" % bo)); continue
+        if rb[0] == "ok":
+            if ra[0] != "ok": fails.append((c, o, "appending %d bytes to an accepted input changes the outcome class (base: %s)" % (k, bo)))
+            elif ra[3] != rb[3]: fails.append((c, o, "appending %d bytes changes the parsed value (base: %s)" % (k, bo)))
+            elif ra[1] != rb[1] or ra[2] != rb[2] + k: fails.append((c, o, "appending %d bytes must extend the remainder by exactly those bytes (base: %s)" % (k, bo)))
+        elif rb[0] == "err":
+            if ra[0] != "err": fails.append((c, o, "appending %d bytes to a rejected input changes the outcome class (base: %s)" % (k, bo)))
+    return fails
+
 def direct_oracle(pid, case, impl_out):
     """property-level predicates on the implementation's output (independent of the model)"""
     if pid in ("C03", "C04", "C06", "C01"):
@@ -426,6 +516,16 @@ def direct_oracle(pid, case, impl_out):
                 # prefix of the payload, each within its own 24-bit length
                 r = _handshake_framing(b[5:5+L], "(ok @_+0 %s)" % m.group(2), exact=False)
                 if r: return r
+    if pid in ("C06", "C01") and not case.line.startswith(("defrag ", "@", "states ")):
+        import vlib
+        e, a, hx = vlib.split_line(case.line)
+        b = bytes.fromhex(hx) if hx != "-" else b""
+        r = _provenance(b, impl_out)
+        if r: return r
+        d = _declared_len(e, a, b)
+        pr = _parse_res(impl_out, len(b))
+        if d is not None and pr and pr[0] == "ok" and pr[1] != d:
+            return "accepted, but consumed %d bytes where the structure declares %d" % (pr[1], d)
     if pid in ("C07", "C01") and case.line.startswith("defrag "):
         if "(panic)" in impl_out: return "defragmenter panicked"
         import vlib
@@ -456,6 +556,7 @@ def post_oracle(pid, cases, outs):
         binp = vlib.harness_paths("default")[2]
         return _chain_oracle(cases, outs, binp, "tls_parser_many", "parse_tls_plaintext") + \
                _chain_oracle(cases, outs, binp, "parse_dtls_plaintext_records", "parse_dtls_plaintext_record")
+    if pid == "C06": return _append_oracle(cases, outs)
     if pid not in ("C07",): return fails
     by_line = {c.line: o for c, o in zip(cases, outs)}
     for c, o in zip(cases, outs):
